@@ -2439,11 +2439,13 @@ getObjectSpecification(PyObject* module, PyObject* ob)
           PyObject_IsInstance(result, OBJECT(specification_base_class));
         if (is_instance < 0) {
             /* Propagate all errors */
+            Py_DECREF(result);
             return NULL;
         }
         if (is_instance) {
             return result;
         }
+        Py_DECREF(result);
     }
 
     /* We do a getattr here so as not to be defeated by proxies */
